@@ -236,6 +236,24 @@ pub fn shrink_tree(tree: &Tree, fails: &dyn Fn(&Tree) -> bool) -> Tree {
         }
         break;
     }
+    // canonical leaves: a literal wherever the failure does not need anything else
+    let n = cur.n_nodes();
+    for idx in 0..n {
+        let subs = cur.subtrees();
+        let sub = subs[idx].clone();
+        if sub.has_op() || sub == leafs[0] {
+            continue;
+        }
+        let cand = cur.replace_at(idx, &leafs[0]);
+        if fails(&cand) {
+            cur = cand;
+        } else if sub != leafs[1] {
+            let cand = cur.replace_at(idx, &leafs[1]);
+            if fails(&cand) {
+                cur = cand;
+            }
+        }
+    }
     cur
 }
 
